@@ -8,12 +8,16 @@ import (
 
 func serve(h http.HandlerFunc) vOut {
 	w := httptest.NewRecorder()
-	h(w, httptest.NewRequest("GET", "/ping/7", nil))
+	path := "/ping/7"
+	if vAlt {
+		path = "/ping/8" // the same route /ping/:id, another request
+	}
+	h(w, httptest.NewRequest("GET", path, nil))
 	return vOut{Status: w.Code, Body: w.Body.String()}
 }
 
 func TestVerifGoZeroGlobal(t *testing.T) {
-	vRunDriver(t, vDriver{Name: "go-zero.SentinelMiddleware", DefaultRes: "GET:/ping/7", CustomRes: "custom-gozero", HasFallback: true, CanPanic: true,
+	vRunDriver(t, vDriver{Name: "go-zero.SentinelMiddleware", DefaultRes: "GET:/ping/7", AltRes: "GET:/ping/8", CustomRes: "custom-gozero", HasFallback: true, CanPanic: true,
 		Run: func(r vReq, handler func() error) vOut {
 			var opts []Option
 			if r.Extractor {
@@ -38,22 +42,24 @@ func TestVerifGoZeroGlobal(t *testing.T) {
 			if fb {
 				opts = append(opts, WithBlockFallback(func(*http.Request) (int, string) { return http.StatusBadRequest, "fallback" }))
 			}
-			mw := SentinelMiddleware(opts...) // ONE middleware value
-			return func(h func() error) vOut {
-				return serve(mw(func(w http.ResponseWriter, _ *http.Request) {
-					if err := h(); err != nil {
-						http.Error(w, "err", http.StatusBadGateway)
-						return
-					}
-					w.Write([]byte("pong"))
-				}))
+			hs := &vHandlers{}
+			wrapped := SentinelMiddleware(opts...)(func(w http.ResponseWriter, _ *http.Request) { // wrapped ONCE, as go-zero does per route
+				if err := hs.call(); err != nil {
+					http.Error(w, "err", http.StatusBadGateway)
+					return
+				}
+				w.Write([]byte("pong"))
+			})
+			return func(h func() error) (out vOut) {
+				hs.with(h, func() { out = serve(wrapped) })
+				return out
 			}
 		},
 		Rejected: vHTTPRejected})
 }
 
 func TestVerifGoZeroRouting(t *testing.T) {
-	vRunDriver(t, vDriver{Name: "go-zero.SentinelRouteMiddleware.Handle", DefaultRes: "GET:/ping/7", CanPanic: true,
+	vRunDriver(t, vDriver{Name: "go-zero.SentinelRouteMiddleware.Handle", DefaultRes: "GET:/ping/7", AltRes: "GET:/ping/8", CanPanic: true,
 		Run: func(r vReq, handler func() error) vOut {
 			return serve(NewSentinelRouteMiddleware().Handle(func(w http.ResponseWriter, _ *http.Request) {
 				if err := handler(); err != nil {
@@ -64,15 +70,17 @@ func TestVerifGoZeroRouting(t *testing.T) {
 			}))
 		},
 		Instance: func(ext, fb bool) func(func() error) vOut {
-			mw := NewSentinelRouteMiddleware() // ONE middleware value
-			return func(h func() error) vOut {
-				return serve(mw.Handle(func(w http.ResponseWriter, _ *http.Request) {
-					if err := h(); err != nil {
-						http.Error(w, "err", http.StatusBadGateway)
-						return
-					}
-					w.Write([]byte("pong"))
-				}))
+			hs := &vHandlers{}
+			wrapped := NewSentinelRouteMiddleware().Handle(func(w http.ResponseWriter, _ *http.Request) { // wrapped ONCE
+				if err := hs.call(); err != nil {
+					http.Error(w, "err", http.StatusBadGateway)
+					return
+				}
+				w.Write([]byte("pong"))
+			})
+			return func(h func() error) (out vOut) {
+				hs.with(h, func() { out = serve(wrapped) })
+				return out
 			}
 		},
 		Rejected: vHTTPRejected})
